@@ -78,7 +78,7 @@ func (s *storage) delete(br blob.Ref) error {
 	}
 
 	// punch hole, if possible
-	if punchHole != nil {
+	if punchHole != nil && meta.size > 0 {
 		err = punchHole(f, meta.offset, int64(meta.size))
 		if err == nil {
 			return nil
